@@ -50,12 +50,18 @@ ConcatO == IsEv("concato") /\ Upd(S \o str[E.p])
 RemOk == IsEv("rem") /\ Contains(S, E.arg) /\ Upd(RemFirst(S, E.arg))
 RemFail == IsEv("rem") /\ ~Contains(S, E.arg) /\ Fails({"ValueError"})
 Mem == IsEv("mem") /\ E.r = (IF Contains(S, E.arg) THEN 1 ELSE 0) /\ Upd(S)
+RemOOk == IsEv("remo") /\ Contains(S, str[E.p]) /\ Upd(RemFirst(S, str[E.p]))       \* the argument is a String object (maybe the target)
+RemOFail == IsEv("remo") /\ ~Contains(S, str[E.p]) /\ Fails({"ValueError"})
+MemO == IsEv("memo") /\ E.r = (IF Contains(S, str[E.p]) THEN 1 ELSE 0) /\ Upd(S)
+TailFrom(n) == SubSeq(S, (IF n < Len(S) THEN n ELSE Len(S)) + 1, Len(S))
+ConcatIn == IsEv("concatin") /\ Upd(S \o TailFrom(E.n))        \* the argument points into the target's own characters
+AssignIn == IsEv("assignin") /\ Upd(TailFrom(E.n))
 Resize == IsEv("resize") /\ Upd(Truncate(S, E.n))
 PrintAt == IsEv("printat") /\ E.r = E.n + Len(E.arg) /\ Upd(WriteAt(S, E.n, E.arg))     \* returns the position after the text
 Cmp == IsEv("cmp") /\ E.r = Sign(StrCmp(S, str[E.p])) /\ E.n = (IF S = str[E.p] THEN 1 ELSE 0) /\ Upd(S)
 Del == IsEv("del") /\ Step(Without(str, E.o))
 
-Next == Reset \/ End \/ New \/ Copy \/ Assign \/ AssignO \/ Concat \/ ConcatO \/ RemOk \/ RemFail \/ Mem \/ Resize \/ PrintAt \/ Cmp \/ Del
+Next == Reset \/ End \/ New \/ Copy \/ Assign \/ AssignO \/ Concat \/ ConcatO \/ RemOk \/ RemFail \/ Mem \/ RemOOk \/ RemOFail \/ MemO \/ ConcatIn \/ AssignIn \/ Resize \/ PrintAt \/ Cmp \/ Del
 Spec == Init /\ [][Next]_vars
 Accepted == LET d == TLCGet("stats").diameter IN
             /\ PrintT(<<"TRACE_MATCHED", d - 1, Len(T)>>)
